@@ -3,6 +3,7 @@
 // Floats cross the boundary as 16-hex-digit bit patterns.
 mod util;
 mod c01;
+mod c04;
 mod c05;
 mod c09;
 mod c11;
@@ -23,6 +24,7 @@ fn dispatch(case: &Value) -> Value {
     let p = k.split('.').next().unwrap_or("");
     match p {
         "c01" => c01::run(k, case),
+        "c04" => c04::run(k, case),
         "c05" => c05::run(k, case),
         "c09" => c09::run(k, case),
         "c11" => c11::run(k, case),
